@@ -37,6 +37,7 @@ set_option linter.unusedVariables false
 set_option linter.unusedSectionVars false
 set_option linter.unusedSimpArgs false
 set_option maxHeartbeats 1000000
+set_option linter.unusedTactic false
 
 variable {K : Type} [Field K] (c c3 : K) (fn : Fns K)
 
@@ -221,5 +222,69 @@ theorem jacobi_decomposition (A0 : M3 K) (Rs : List (M3 K)) (hR : ∀ R ∈ Rs, 
 
 /-- non-vacuity: a plane rotation over ℚ (3-4-5) -/
 example : Orth (G01 (3/5 : ℚ) (4/5)) := orth_G01 (by norm_num)
+
+
+/-! ## (c) Cardano's closed form (`syevc3`): Vieta's relations (fields of characteristic 0) -/
+section cardano
+variable [CharZero K]
+set_option maxRecDepth 100000
+
+/-- what the traced intermediate quantities are: trace, coefficients of the characteristic polynomial
+`det(x − A) = x³ − m x² + c1 x + c0`, `p = m² − 3 c1`, `q = m(p − 3/2 c1) − 27/2 c0` -/
+theorem syevc3_charpoly (a00 a11 a22 a01 a02 a12 x : K) :
+    (x • (1 : M3 K) - M3.sym a00 a11 a22 a01 a02 a12).det
+      = x * x * x - Gen.syevc3_m c c3 fn a00 a11 a22 a01 a02 a12 * (x * x) + Gen.syevc3_c1 c c3 fn a00 a11 a22 a01 a02 a12 * x + Gen.syevc3_c0 c c3 fn a00 a11 a22 a01 a02 a12 := by
+  c03_unfold; ring1
+
+/-- Vieta: sum, sum of pairwise products and product of the three returned values, given
+`sqrt(|p|)² = p` (p ≥ 0 for a real symmetric matrix), `cos² + sin² = 1`, `√3² = 3` and
+`sqrt(p)³ (4 cos³φ − 3 cos φ) = q` (triple angle formula with `cos 3φ = q/p^{3/2}`, which is what
+`3φ = atan2(sqrt(27(…)), q)` means since `27(…) = p³ − q²`: `syevc3_discriminant`). -/
+theorem syevc3_vieta (a00 a11 a22 a01 a02 a12 : K) (h3 : (3 : K) ≠ 0) (h2 : (2 : K) ≠ 0) (hc3 : c3 * c3 = 3)
+    (hR : Gen.syevc3_sqrtp c c3 fn a00 a11 a22 a01 a02 a12 * Gen.syevc3_sqrtp c c3 fn a00 a11 a22 a01 a02 a12 = Gen.syevc3_p c c3 fn a00 a11 a22 a01 a02 a12)
+    (hCS : Gen.syevc3_cosphi c c3 fn a00 a11 a22 a01 a02 a12 * Gen.syevc3_cosphi c c3 fn a00 a11 a22 a01 a02 a12 + Gen.syevc3_sinphi c c3 fn a00 a11 a22 a01 a02 a12 * Gen.syevc3_sinphi c c3 fn a00 a11 a22 a01 a02 a12 = 1)
+    (hq : Gen.syevc3_sqrtp c c3 fn a00 a11 a22 a01 a02 a12 * Gen.syevc3_sqrtp c c3 fn a00 a11 a22 a01 a02 a12 * Gen.syevc3_sqrtp c c3 fn a00 a11 a22 a01 a02 a12
+          * (4 * (Gen.syevc3_cosphi c c3 fn a00 a11 a22 a01 a02 a12 * Gen.syevc3_cosphi c c3 fn a00 a11 a22 a01 a02 a12 * Gen.syevc3_cosphi c c3 fn a00 a11 a22 a01 a02 a12) - 3 * Gen.syevc3_cosphi c c3 fn a00 a11 a22 a01 a02 a12) = Gen.syevc3_q c c3 fn a00 a11 a22 a01 a02 a12) :
+    Gen.syevc3_w0 c c3 fn a00 a11 a22 a01 a02 a12 + Gen.syevc3_w1 c c3 fn a00 a11 a22 a01 a02 a12 + Gen.syevc3_w2 c c3 fn a00 a11 a22 a01 a02 a12 = Gen.syevc3_m c c3 fn a00 a11 a22 a01 a02 a12
+    ∧ Gen.syevc3_w0 c c3 fn a00 a11 a22 a01 a02 a12 * Gen.syevc3_w1 c c3 fn a00 a11 a22 a01 a02 a12 + Gen.syevc3_w0 c c3 fn a00 a11 a22 a01 a02 a12 * Gen.syevc3_w2 c c3 fn a00 a11 a22 a01 a02 a12 + Gen.syevc3_w1 c c3 fn a00 a11 a22 a01 a02 a12 * Gen.syevc3_w2 c c3 fn a00 a11 a22 a01 a02 a12 = Gen.syevc3_c1 c c3 fn a00 a11 a22 a01 a02 a12
+    ∧ Gen.syevc3_w0 c c3 fn a00 a11 a22 a01 a02 a12 * Gen.syevc3_w1 c c3 fn a00 a11 a22 a01 a02 a12 * Gen.syevc3_w2 c c3 fn a00 a11 a22 a01 a02 a12 = -Gen.syevc3_c0 c c3 fn a00 a11 a22 a01 a02 a12 := by
+  simp only [gen_simp] at hR hCS hq ⊢
+  generalize fn.cos _ = C at *
+  generalize fn.sin _ = S at *
+  generalize fn.sqrt _ = R at *
+  refine ⟨?_, ?_, ?_⟩
+  · ring1
+  · linear_combination (-(1 : K) / 3) * hR + (-(R * R) / 3) * hCS + (-(R * R * S * S) / 9) * hc3
+  · linear_combination (2 / 27 : K) * hq + ((2 / 9) * R * C - ((a00 + a11 + a22) + 2 * R * C) / 9) * hR
+      - (((a00 + a11 + a22) + 2 * R * C) / 9 * (R * R)) * hCS
+      - (((a00 + a11 + a22) + 2 * R * C) / 9 * (R * R * S * S / 3)) * hc3
+
+/-- the argument of the square root in `phi` is `p³ − q²` (a polynomial identity), so that
+`cos(3φ) = q / p^(3/2)` for `3φ = atan2(sqrt(p³ − q²), q)` -/
+theorem syevc3_discriminant (a00 a11 a22 a01 a02 a12 : K) (h2 : (2 : K) ≠ 0) :
+    4 * (27 * ((1 / 4) * (Gen.syevc3_c1 c c3 fn a00 a11 a22 a01 a02 a12 * Gen.syevc3_c1 c c3 fn a00 a11 a22 a01 a02 a12) * (Gen.syevc3_p c c3 fn a00 a11 a22 a01 a02 a12 - Gen.syevc3_c1 c c3 fn a00 a11 a22 a01 a02 a12)
+          + Gen.syevc3_c0 c c3 fn a00 a11 a22 a01 a02 a12 * (Gen.syevc3_q c c3 fn a00 a11 a22 a01 a02 a12 + (27 / 4) * Gen.syevc3_c0 c c3 fn a00 a11 a22 a01 a02 a12)))
+      = 4 * (Gen.syevc3_p c c3 fn a00 a11 a22 a01 a02 a12 * Gen.syevc3_p c c3 fn a00 a11 a22 a01 a02 a12 * Gen.syevc3_p c c3 fn a00 a11 a22 a01 a02 a12 - Gen.syevc3_q c c3 fn a00 a11 a22 a01 a02 a12 * Gen.syevc3_q c c3 fn a00 a11 a22 a01 a02 a12) := by
+  simp only [gen_simp]; ring1
+
+/-- hence each returned value is a root of the characteristic polynomial, i.e. an eigenvalue -/
+theorem syevc3_roots (a00 a11 a22 a01 a02 a12 : K) (h3 : (3 : K) ≠ 0) (h2 : (2 : K) ≠ 0) (hc3 : c3 * c3 = 3)
+    (hR : Gen.syevc3_sqrtp c c3 fn a00 a11 a22 a01 a02 a12 * Gen.syevc3_sqrtp c c3 fn a00 a11 a22 a01 a02 a12 = Gen.syevc3_p c c3 fn a00 a11 a22 a01 a02 a12)
+    (hCS : Gen.syevc3_cosphi c c3 fn a00 a11 a22 a01 a02 a12 * Gen.syevc3_cosphi c c3 fn a00 a11 a22 a01 a02 a12 + Gen.syevc3_sinphi c c3 fn a00 a11 a22 a01 a02 a12 * Gen.syevc3_sinphi c c3 fn a00 a11 a22 a01 a02 a12 = 1)
+    (hq : Gen.syevc3_sqrtp c c3 fn a00 a11 a22 a01 a02 a12 * Gen.syevc3_sqrtp c c3 fn a00 a11 a22 a01 a02 a12 * Gen.syevc3_sqrtp c c3 fn a00 a11 a22 a01 a02 a12
+          * (4 * (Gen.syevc3_cosphi c c3 fn a00 a11 a22 a01 a02 a12 * Gen.syevc3_cosphi c c3 fn a00 a11 a22 a01 a02 a12 * Gen.syevc3_cosphi c c3 fn a00 a11 a22 a01 a02 a12) - 3 * Gen.syevc3_cosphi c c3 fn a00 a11 a22 a01 a02 a12) = Gen.syevc3_q c c3 fn a00 a11 a22 a01 a02 a12) :
+    (Gen.syevc3_w0 c c3 fn a00 a11 a22 a01 a02 a12 • (1 : M3 K) - M3.sym a00 a11 a22 a01 a02 a12).det = 0
+    ∧ (Gen.syevc3_w1 c c3 fn a00 a11 a22 a01 a02 a12 • (1 : M3 K) - M3.sym a00 a11 a22 a01 a02 a12).det = 0
+    ∧ (Gen.syevc3_w2 c c3 fn a00 a11 a22 a01 a02 a12 • (1 : M3 K) - M3.sym a00 a11 a22 a01 a02 a12).det = 0 := by
+  obtain ⟨v1, v2, v3⟩ := syevc3_vieta c c3 fn a00 a11 a22 a01 a02 a12 h3 h2 hc3 hR hCS hq
+  rw [syevc3_charpoly, syevc3_charpoly, syevc3_charpoly, ← v1, ← v2]
+  have v3' : Gen.syevc3_c0 c c3 fn a00 a11 a22 a01 a02 a12 = -(Gen.syevc3_w0 c c3 fn a00 a11 a22 a01 a02 a12 * Gen.syevc3_w1 c c3 fn a00 a11 a22 a01 a02 a12 * Gen.syevc3_w2 c c3 fn a00 a11 a22 a01 a02 a12) := by rw [v3]; ring
+  rw [v3']
+  generalize Gen.syevc3_w0 c c3 fn a00 a11 a22 a01 a02 a12 = x0
+  generalize Gen.syevc3_w1 c c3 fn a00 a11 a22 a01 a02 a12 = x1
+  generalize Gen.syevc3_w2 c c3 fn a00 a11 a22 a01 a02 a12 = x2
+  refine ⟨by ring, by ring, by ring⟩
+
+end cardano
 
 end TfelVerif.C03.Props
